@@ -167,7 +167,24 @@ func runC04(c *Ctx) {
 			if atom.Args[0] != f {
 				bad = "not called on the rule itself"
 			}
+			wholeReq := len(atom.Args) == 2 && atom.Args[1] == r
+			if wholeReq && !(len(cj.argFld) == 1 && cj.argFld[0] == "*") {
+				// the check is handed the request: it must read the constrained fields from it
+				rr := fieldsReadFrom(c, cj.fn, "rules", "Request")
+				for _, fld := range cj.argFld {
+					if !rr[fld] {
+						bad = fmt.Sprintf("the check receives the request but never reads Request.%s, which the modifier constrains", fld)
+					}
+				}
+			}
 			for i, fld := range cj.argFld {
+				if wholeReq {
+					break
+				}
+				if 1+i >= len(atom.Args) {
+					bad = fmt.Sprintf("the check receives %d argument(s); the modifier constrains Request.%s", len(atom.Args)-1, strings.Join(cj.argFld, ", Request."))
+					break
+				}
 				arg := atom.Args[1+i]
 				if fld == "*" {
 					if arg != r {
@@ -439,11 +456,18 @@ func runC04(c *Ctx) {
 				}
 			}
 		})
-		s := g.Eval(cj.fn)
+		// evaluated as part of Match: host and the hostname-request flag are the request's fields
+		// whether the check is handed the two fields or the request
+		_, sub := evalInner(g, match, cj.fn)
 		u := g.U
-		ps := g.ParamExprs(cj.fn)
-		f, dom, hq := ps[0], ps[1], ps[2]
-		H := u.ToBool(g.RetExpr(s, 0))
+		mps := g.ParamExprs(match)
+		f := mps[0]
+		dom := u.Field(mps[1], "Hostname", types.Typ[types.String])
+		hq := u.Field(mps[1], "IsHostnameRequest", types.Typ[types.Bool])
+		H := False
+		if sub != nil {
+			H = localBool(g, sub, 0)
+		}
 		var emp, P, okA, in Ref = False, False, False, False
 		bad := ""
 		for _, at := range u.AtomsOf(H) {
@@ -460,6 +484,9 @@ func runC04(c *Ctx) {
 			default:
 				bad = "UNDECIDED: unexpected predicate " + clip(u.Show(at), 100)
 			}
+		}
+		if sub == nil {
+			bad = "UNDECIDED: the $denyallow check is not evaluated as part of Match"
 		}
 		if bad == "" {
 			if emp == False || in == False {
